@@ -2405,6 +2405,27 @@ func (c *ChannelStateDB) AdvanceCommitChainTail(channel *OpenChannel,
 			// This shouldn't normally happen as we always store
 			// the number of updates, but could still be
 			// encountered by nodes that are upgrading.
+			//
+			// It is also the case for a channel that has never
+			// revoked one of its own commitments yet. The local
+			// updates the peer hasn't yet signed (e.g. a fee
+			// update) must still be persisted, otherwise they are
+			// lost on restart and the peer's next signature,
+			// which covers them, is rejected.
+			var b2 bytes.Buffer
+			err = serializeLogUpdates(&b2, updates)
+			if err != nil {
+				return err
+			}
+
+			err = chanBucket.Put(
+				remoteUnsignedLocalUpdatesKey, b2.Bytes(),
+			)
+			if err != nil {
+				return fmt.Errorf("unable to restore remote "+
+					"unsigned local updates: %v", err)
+			}
+
 			newRemoteCommit = &newCommit.Commitment
 			return nil
 		}
